@@ -25,19 +25,31 @@ struct Case
 
 static std::string fmt15(double x) { std::ostringstream o; o.precision(15); o << x; return o.str(); }
 
+// the documented writer is event::store itself (it sets the 15-digit precision): half of the records go through a stream whose precision the
+// caller did not touch (as the shipped examples do), half through one prepared like bxdecay0-run's
 static std::string record_text(const ESpec & e, int id)
 {
   bxdecay0::event ev; ev.set_generator(e.label); ev.set_time(e.time);
   for (auto & p : e.parts) { bxdecay0::particle q; q.set_code((bxdecay0::particle_code)p.code); q.set_time(p.t); q.set_momentum(p.px, p.py, p.pz); ev.add_particle(q); }
-  std::ostringstream out; out.precision(15);
-  out << id << ' '; ev.store(out, bxdecay0::event::STORE_EVENT_TIME); out << '\n'; // exactly what bxdecay0-run writes
+  std::ostringstream out; if (id % 2 == 0) out.precision(15);
+  out << id << ' '; ev.store(out, bxdecay0::event::STORE_EVENT_TIME); out << '\n';
   return out.str();
 }
-static std::string loaded_text(const bxdecay0::event & ev) { std::ostringstream out; out.precision(15); ev.store(out, bxdecay0::event::STORE_EVENT_TIME); return out.str(); }
-static std::string expected_text(const ESpec & e, bool zero_time)
+// independent oracle: the loaded event against the ORIGINAL values, field by field, at 15 significant digits (own formatter)
+static bool same_as(const bxdecay0::event & ev, const ESpec & e, bool zero_time, std::string & why)
 {
-  ESpec c = e; if (zero_time) c.time = 0.0;
-  std::string r = record_text(c, 0); return r.substr(2, r.size() - 3); // strip the "0 " id prefix and the trailing blank line
+  if (ev.get_generator() != e.label) { why = "generator label '" + ev.get_generator() + "' vs '" + e.label + "'"; return false; }
+  double t = zero_time ? 0.0 : e.time;
+  if (fmt15(ev.get_time()) != fmt15(t)) { why = "event time " + fmt15(ev.get_time()) + " vs " + fmt15(t) + " written"; return false; }
+  const auto & ps = ev.get_particles();
+  if (ps.size() != e.parts.size()) { why = "particle count " + std::to_string(ps.size()) + " vs " + std::to_string(e.parts.size()); return false; }
+  for (size_t i = 0; i < ps.size(); i++) {
+    if ((int)ps[i].get_code() != e.parts[i].code) { why = "species of particle " + std::to_string(i); return false; }
+    double got[4] = {ps[i].get_time(), ps[i].get_px(), ps[i].get_py(), ps[i].get_pz()}, want[4] = {e.parts[i].t, e.parts[i].px, e.parts[i].py, e.parts[i].pz};
+    static const char * fn[] = {"time", "px", "py", "pz"};
+    for (int k = 0; k < 4; k++) if (fmt15(got[k]) != fmt15(want[k])) { why = std::string(fn[k]) + " of particle " + std::to_string(i) + ": " + fmt15(got[k]) + " read back, " + fmt15(want[k]) + " written"; return false; }
+  }
+  return true;
 }
 
 static std::string case_json(const Case & c)
@@ -109,11 +121,11 @@ static Res run_case(const Case & c, const std::string & dir)
       bxdecay0::event ev;
       try { rd->load_next_event(ev); } catch (std::exception & e) { return fail("load-throws", "load_next_event raised '" + std::string(e.what()) + "' although " + std::to_string(remaining) + " window events remain"); }
       const ESpec & want = c.stream[lo + delivered];
-      std::string got = loaded_text(ev), exp = expected_text(want, c.zero_time);
-      if (got != exp) {
+      std::string why;
+      if (!same_as(ev, want, c.zero_time, why)) {
         // which event did we get?
-        int which = -1; for (int i = 0; i < n; i++) if (expected_text(c.stream[i], c.zero_time) == got) { which = i; break; }
-        return fail(which >= 0 ? "wrong-event" : "content-differs", which >= 0 ? "delivery #" + std::to_string(delivered) + " is stream event " + std::to_string(which) + ", expected " + std::to_string(lo + delivered) : "event " + std::to_string(lo + delivered) + " read back differs at 15 significant digits:\n got: " + got + " want: " + exp);
+        int which = -1; std::string w2; for (int i = 0; i < n; i++) if (same_as(ev, c.stream[i], c.zero_time, w2)) { which = i; break; }
+        return fail(which >= 0 ? "wrong-event" : "content-differs", which >= 0 ? "delivery #" + std::to_string(delivered) + " is stream event " + std::to_string(which) + ", expected " + std::to_string(lo + delivered) : "event " + std::to_string(lo + delivered) + " read back differs at 15 significant digits: " + why);
       }
       delivered++;
       if (rd->get_loaded_event_counter() != delivered) return fail("counter", "get_loaded_event_counter()=" + std::to_string(rd->get_loaded_event_counter()) + " after " + std::to_string(delivered) + " deliveries");
